@@ -129,6 +129,17 @@ def run(ctx, log):
     rng.shuffle(sidx)
     spick = sorted(sidx[:1500 if ctx.quick else len(lits)])
     front.front_corr(ctx, [lits[i] for i in spick], ("tok", "parse"), log, label="strings")
+    # every raw string body up to length 3 over {a n " \ é flag}: whatever stands after a backslash, the lexer and
+    # the literal decoder neither crash nor disagree with Lexer.v / decode_string
+    raw = []
+    for n in range(0, 4):
+        raw += ['"' + "".join(p) + '"' for p in itertools.product(["a", "n", '"', "\\", "é", "🇳"], repeat=n)]
+    robs = vlib.nlh("parse", [vlib.hexs(s) for s in raw], tag="c08raw")
+    for s, o in zip(raw, robs):
+        ctx.seen(s)
+        if not (o.startswith("OK") or o.startswith("ERR")):
+            ctx.violate("a string literal made the front end crash", source=s, observed=o[:200], expected="a tree or a syntax error")
+    front.front_corr(ctx, raw, ("tok", "parse"), log, label="raw-strings")
     # malformed stream: unterminated strings, illegal characters must be flagged, not dropped
     bad = ['"abc', '"a\\"', 'a "b', "1 № 2", "a & b", "a | b", "x # y", " a"]
     bobs = vlib.nlh("parse", [vlib.hexs(s) for s in bad], tag="c08b")
